@@ -101,7 +101,7 @@ class CountMinSketch:
                 self.__error_rate = error_rate
                 self.__width = math.ceil(2 / error_rate)
                 numerator = -1 * math.log(1 - confidence)
-                self.__depth = math.ceil(numerator / 0.6931471805599453)
+                self.__depth = max(1, math.ceil(numerator / 0.6931471805599453))  # 1 - confidence can round to 1.0
 
             else:
                 msg = (
